@@ -55,7 +55,6 @@ M("c16-nan-bypass", "C16", "runner.py", "        out = self.replace_nans_with_0(
 M("c16-nan-first-only", "C16", "runner.py", "                    for tup in range(2):", "                    for tup in range(1):", expect="C16.nan")
 M("c16-nan-filter-revert", "C16", "runner.py", "                not observable_name.ObservableName.is_valid(observable)\n                or points is None", "                observable not in observable_name.kinds\n                or points is None", expect="C16.nan")
 M("c16-wodd-revert", "C16", CFD + "kernels.py", '{k: c / (nf) for k, c in w_odd["v"].items()},', '{k: np.sign(k) * c / (nf) for k, c in w_odd["s"].items()},', expect="generate_single_flavor_light")
-M("c16-tmc-map", "C16", "esf/tmc.py", 'ESFTMCmap = {"F2": ESFTMC_F2, "FL": ESFTMC_FL, "F3": ESFTMC_F3, "g1": ESFTMC_g1}', 'ESFTMCmap = {"F2": ESFTMC_F2, "FL": ESFTMC_FL, "F3": ESFTMC_F3}', expect=None)
 M("c16-channel-name", "C16", CFD + "intrinsic/f2_nc.py", "class Splus(", "class Spl(", expect=None)
 M("c16-tmc-kin-revert", "C16", "esf/tmc.py", '        if kinematics["x"] > 1 or kinematics["x"] <= 0:\n            raise ValueError("Kinematics \'x\' must be in the range (0,1]")\n', "", expect="C16.kin")
 M("c16-asy-name", "C16", CFD + "asy/kernels.py", 'name = "Asy" + ("N" * res) + "LL" + "NonSinglet"', 'name = "Asy" + ("N" * res) + "LL" + "Nonsinglet"', expect="generate_missing_asy")
@@ -84,3 +83,24 @@ M("c07-pos-guard-fl11", "C07", CFD + "coupling_constants.py",
 M("c07-total-drops-heavy", "C07", CFD + "__init__.py", "            if hq not in (0, sfh):\n                continue", "            if hq != sfh:\n                continue", expect="C07.ffns")
 M("c07-zm-extra", "C07", CFD + "__init__.py", "            if not masses[sfh]:\n                continue\n\n            heavy_comps[sfh] = Component(sfh)", "            heavy_comps[sfh] = Component(sfh)", expect="C07")
 B("c07-list-to-tuple", "C07", CFD + "__init__.py", 'if family in ["heavy", "total"] and self.fonllparts in ["massive", "full"]:', 'if family in ("total", "heavy") and self.fonllparts != "massless":')
+
+# ----------------------------------------------------------------------------- C02
+CCF = CFD + "coupling_constants.py"
+M("c02-pol-sign", "C02", CCF, "                    projectile_v + pol * projectile_a\n", "                    projectile_v - pol * projectile_a\n", expect="C02.weight")
+M("c02-interference-factor", "C02", CCF, "            w_phZ = (\n                2\n                * self.leptonic_coupling", "            w_phZ = (\n                1\n                * self.leptonic_coupling", expect="C02.weight")
+M("c02-eta-zz", "C02", CCF, "            return eta_phZ**2\n", "            return eta_phZ\n", expect="C02.weight")
+M("c02-cos2", "C02", CCF, "* (1.0 - self.theory_config[\"sin2theta_weak\"])", "* (1.0 + self.theory_config[\"sin2theta_weak\"])", expect="C02.weight")
+M("c02-mask-c", "C02", CCF, "op += np.array([[0, 0, 0], [1, 1, 0], [0, 0, 0]])", "op += np.array([[0, 0, 0], [1, 0, 1], [0, 0, 0]])", expect="C02.ckm")
+M("c02-rest-list", "C02", CFD + "kernels.py",
+  "    weights = {\"ns\": {}, \"g\": {}, \"s\": {}}\n    # determine couplings\n    projectile_pid = coupling_constants.obs_config[\"projectilePID\"]\n    if projectile_pid in [-11, 12]:\n        rest = 1\n    else:\n        rest = 0\n    # quark couplings\n    tot_ch_sq = 0\n    norm = len(cc_mask)\n    # iterate: include the heavy quark itself, since it can run in the singlet sector diagrams\n    for q in range(1, min(nf + 2, 6 + 1)):\n        sign = 1 if q % 2 == rest else -1\n        w = coupling_constants.get_weight(q, Q2, None, cc_mask=cc_mask)\n        # the heavy quark can not be in the input\n        # NOTE: intrinsic abuse this statement with nf -> nf + 1\n        if q <= nf:\n            # @F3-sign@\n            weights[\"ns\"][sign * q] = w / 2 * (1 if not is_pv else sign)\n            weights[\"ns\"][-sign * q] = w / 2 * (1 if not is_pv else sign)",
+  "    weights = {\"ns\": {}, \"g\": {}, \"s\": {}}\n    # determine couplings\n    projectile_pid = coupling_constants.obs_config[\"projectilePID\"]\n    if projectile_pid in [11, 12]:\n        rest = 1\n    else:\n        rest = 0\n    # quark couplings\n    tot_ch_sq = 0\n    norm = len(cc_mask)\n    # iterate: include the heavy quark itself, since it can run in the singlet sector diagrams\n    for q in range(1, min(nf + 2, 6 + 1)):\n        sign = 1 if q % 2 == rest else -1\n        w = coupling_constants.get_weight(q, Q2, None, cc_mask=cc_mask)\n        # the heavy quark can not be in the input\n        # NOTE: intrinsic abuse this statement with nf -> nf + 1\n        if q <= nf:\n            # @F3-sign@\n            weights[\"ns\"][sign * q] = w / 2 * (1 if not is_pv else sign)\n            weights[\"ns\"][-sign * q] = w / 2 * (1 if not is_pv else sign)",
+  expect="C02.lo")
+M("c02-up-charge", "C02", CCF, "self.electric_charge[q] = 2 / 3 if q % 2 == 0 else -1 / 3", "self.electric_charge[q] = 1 / 3 if q % 2 == 0 else -1 / 3", expect="C02.tables")
+M("c02-antiquark-sign", "C02", CFD + "light/kernels.py", "        ns_partons[-q] = w if not is_pv else -w\n        tot_ch_sq += w", "        ns_partons[-q] = w\n        tot_ch_sq += w", expect="C02.lo")
+M("c02-odd-sign", "C02", CFD + "kernels.py", "            weights[\"ns\"][-sign * q] = -w / 2 * (1 if not is_pv else sign)", "            weights[\"ns\"][-sign * q] = w / 2 * (1 if not is_pv else sign)", expect="C02.lo")
+M("c02-ww-lepton", "C02", CCF, "        if mode == \"WW\":\n            return 2\n", "        if mode == \"WW\":\n            return 1\n", expect="C02")
+M("c02-pol-flip-both", "C02", CCF, "        if (projectile_pid % 2 == 1 and projectile_pid > 0) or (\n            projectile_pid % 2 == 0 and projectile_pid < 0\n        ):", "        if projectile_pid % 2 == 1 or (\n            projectile_pid % 2 == 0 and projectile_pid < 0\n        ):", expect="C02.weight")
+M("c02-vectorial", "C02", CCF, "            - 2.0 * self.electric_charge[pid] * self.theory_config[\"sin2theta_weak\"]", "            - 4.0 * self.electric_charge[pid] * self.theory_config[\"sin2theta_weak\"]", expect="C02.weight")
+M("c02-ckm-call", "C02", CCF, "        if pid % 2 == 0:\n            return self[pid]\n        return self[:, pid]", "        if pid % 2 == 1:\n            return self[pid]\n        return self[:, pid]", expect="C02.ckm")
+B("c02-zz-expanded", "C02", CCF, "                    projectile_v**2\n                    + projectile_a**2\n                    + 2.0 * pol * projectile_v * projectile_a", "                    (projectile_v + pol * projectile_a) ** 2\n                    + (1.0 - pol**2) * projectile_a**2")
+B("c02-hoist-eta", "C02", CCF, "        eta_phZ /= 1 - self.obs_config[\"propagatorCorrection\"]", "        corr = 1 - self.obs_config[\"propagatorCorrection\"]\n        eta_phZ = eta_phZ / corr")
